@@ -229,8 +229,22 @@ def run(ctx, ck):
     ck.floor('ground flag stores on the symbolic paths', n_g, 1)
     ck.ob('R-LIT.tolerance', cgf.qual + '|ground-test', badg is None, cgf.loc(badg[1]) if badg and badg[1] is not None else cgf.loc(),
           'an end is grounded when |z| < 1e-3 * shortest segment' if badg is None else badg[0])
-    # matching comparison uses the tolerance with <=
+    check_end_match_distance(ctx, ck, 'R-LIT.tolerance')
+    from ._endidx import check_end_index
+    ck.rule('R-COUNT.end-index', 'predicted index of the end pulses == number of pulses created before them (all end states)')
+    ncases = check_end_index(ctx, ck)
+    ck.floor('end-state cases', ncases, 30)
+    ck.undecided += ['k-1 pulses for every junction of k ends (depends on runtime connection graph)']
+
+
+def check_end_match_distance(ctx, ck, rule):
+    """the end matching of compute_connections (with the helpers it calls on self) joins two ends when the
+    *distance* between them (a norm of the coordinate difference) is <= / < the tolerance taken from min_seglen:
+    exactly one such comparison.  Shared with C05: a test of this form depends on relative positions only, so a
+    translated or rotated structure is joined up the same way; anything else (component-wise closeness with a
+    relative term, a comparison of coordinates) is reported."""
     from ..rules import self_closure
+    f = ctx.model.func(CC)
     cmp_ = []
     for g_ in self_closure(ctx, f):
         gfl_ = ctx.flow(g_)
@@ -245,11 +259,26 @@ def run(ctx, ck):
                     cmp_.append((g_, n, n.ops[0]))
                 elif dist(rr) and tol(rl):
                     cmp_.append((g_, n, {ast.Gt: ast.Lt(), ast.GtE: ast.LtE()}.get(type(n.ops[0]), n.ops[0])))
+    if not cmp_:
+        # no such comparison: a closeness helper with a relative term is a definite answer, anything else is
+        # a form of the test this rule does not know
+        rel = []
+        for g_ in self_closure(ctx, f):
+            for c in walk_no_nested(g_.node):
+                if isinstance(c, ast.Call) and (dotted(c.func) or '').split('.')[-1] in ('isclose', 'allclose') and \
+                   any('min_seglen' in norm(x) or isinstance(x, ast.Name) for k in c.keywords if k.arg == 'atol' for x in [k.value]):
+                    rt = [k.value for k in c.keywords if k.arg in ('rtol', 'rel_tol')]
+                    if not (rt and isinstance(rt[0], ast.Constant) and rt[0].value == 0):
+                        rel.append((g_, c))
+        if not rel:
+            raise AnalysisError('%s: no comparison of a distance (linalg.norm) with the matching tolerance found - the form '
+                                'of the end matching test is not understood' % CC)
+        ck.ob(rule, CC + '|distance-compare', False, rel[0][0].loc(rel[0][1]),
+              'ends are matched with %s: besides the absolute tolerance it allows a relative one (default rtol) that '
+              'grows with the absolute coordinates - which ends are joined depends on where the structure is placed'
+              % norm(rel[0][1].func))
+        return
     ok = len(cmp_) == 1 and isinstance(cmp_[0][2], (ast.LtE, ast.Lt))
-    ck.ob('R-LIT.tolerance', CC + '|distance-compare', ok, cmp_[0][0].loc(cmp_[0][1]) if cmp_ else f.loc(),
-          'ends joined when distance <= tolerance')
-    from ._endidx import check_end_index
-    ck.rule('R-COUNT.end-index', 'predicted index of the end pulses == number of pulses created before them (all end states)')
-    ncases = check_end_index(ctx, ck)
-    ck.floor('end-state cases', ncases, 30)
-    ck.undecided += ['k-1 pulses for every junction of k ends (depends on runtime connection graph)']
+    ck.ob(rule, CC + '|distance-compare', ok, cmp_[0][0].loc(cmp_[0][1]) if cmp_ else f.loc(),
+          'ends joined when distance <= tolerance (the only test: it depends on relative positions alone)' if ok else
+          'the end matching is not one comparison `norm(end - other end) <= tolerance` (%d found)' % len(cmp_))
